@@ -55,6 +55,48 @@ def register(reg):
 
         return check
 
+    def replay(kind):
+        def run(inputs, clause):
+            """Compiles `do choose|shuffle …` with 1..3 items in list and dict form with the real front end and inspects
+            the produced call; then runs a single ineligible candidate on the real simulator (it must be a rejected
+            simulation, as for any other number of candidates)."""
+            from scenic.syntax.compiler import compileScenicAST
+            from scenic.syntax.parser import parse_string
+
+            for n in (1, 2, 3):
+                for dict_form in (False, True):
+                    items = "{" + ", ".join(f"b{k}(): {k + 1}" for k in range(n)) + "}" if dict_form else ", ".join(f"b{k}()" for k in range(n))
+                    src = f"behavior Main():\n    do {kind} {items}\n"
+                    tree, _ = compileScenicAST(parse_string(src, "exec"))
+                    calls = [c for c in ast.walk(tree) if isinstance(c, ast.Call) and isinstance(c.func, ast.Attribute) and c.func.attr == "_invokeSubBehavior"]
+                    if len(calls) != 1:
+                        return f"`do {kind} {items}` compiles to {len(calls)} scheduler calls"
+                    kws = {k.arg: getattr(k.value, "value", None) for k in calls[0].keywords}
+                    if kws.get("schedule") != kind:
+                        return f"`do {kind} {items}` compiles to _invokeSubBehavior(...) with keywords {kws}: the run-time scheduler for `{kind}` is bypassed"
+                    got = len(calls[0].args[1].elts) if len(calls[0].args) == 2 and isinstance(calls[0].args[1], ast.Tuple) else None
+                    if got != (1 if dict_form else n):
+                        return f"`do {kind} {items}` passes {got} items to the scheduler"
+            import scenic
+            from scenic.core.simulators import DummySimulator
+
+            prog = (
+                "behavior Never():\n    precondition: False\n    wait\n"
+                f"behavior Main():\n    do {kind} Never()\n"
+                "ego = new Object with behavior Main\n"
+            )
+            scenario = scenic.scenarioFromString(prog, mode2D=True)
+            scene, _ = scenario.generate(maxIterations=10)
+            try:
+                sim = DummySimulator().simulate(scene, maxSteps=2, maxIterations=1, raiseGuardViolations=True)
+            except Exception as e:
+                return f"`do {kind} Never()` with an ineligible single candidate: {type(e).__name__} escaped instead of the simulation being rejected ({e})"
+            if sim is not None:
+                return f"`do {kind} Never()` with an ineligible single candidate ran a simulation instead of rejecting it"
+            return None
+
+        return run
+
     for kind in ("choose", "shuffle"):
         reg.add(
             C.Contract(
@@ -62,6 +104,7 @@ def register(reg):
                 params=dict(self=C.Obj(f"{M}:ScenicToPythonTransformer"), node=C.Const(None)),
                 setup=setup,
                 post=post(kind),
+                replay=replay(kind),
                 inline=["ScenicToPythonTransformer.makeDoLike", "ScenicToPythonTransformer.generateInvocation"],
                 bounded=True,
                 note="bounded: 1 to 3 listed items, list and dict form",
